@@ -15,6 +15,11 @@ the reconstruction heuristics themselves are NOT decided):
          targets.setdefault(endpos, clause) (first registration wins) -- sibling agreement across conditional_jump_old/_new/
          _none_impl and the conditional-expression handler; a plain store into targets is allowed only where the stored entry
          replaces the function's own previous entry (guarded by an identity test on targets.get(..)).
+ FSTR    a replacement field of an f-string never escapes as a bare ast.FormattedValue: every handler that creates one puts it
+         into an ast.JoinedStr (directly, or through the item list BUILD_STRING hands to JoinedStr).  A bare FormattedValue is not
+         a valid expression node; the source regenerator and the SQL translator take it for its plain value, so f'{x!r}' or
+         f'{y:.2f}' alone silently lose their conversion / format (the FORMAT_VALUE flag bits are all decoded: 3 conversion
+         values x optional spec).
  PIN     the syntax-tree cache is keyed by get_codeobject_id, which keeps the code object alive, so a recycled id() can
          never serve another lambda's tree (shared with C05).
 """
@@ -84,6 +89,39 @@ def run(ctx):
                 ctx.ob('C03-TARGETS.plain-store-only-replaces-own-entry', f, s, ok,
                        '' if ok else 'plain store %s: an existing (earlier) clause registered for this jump target is overwritten' % norm(s), node=s,
                        expected='%s.targets.setdefault(...) or a store guarded by `%s.targets.get(%s) is <own entry>`' % (recv, recv, key))
+    # ---------------------------------------------------------------- FSTR
+    dmod = repo.mod('pony.orm.decompiling')
+    nfv = 0
+    for fn in repo.rule_funcs():
+        if fn.mod is not dmod: continue
+        par = {}
+        for x in ast.walk(fn.node):
+            for ch in ast.iter_child_nodes(x): par[id(ch)] = x
+        for c in calls_in(fn.node):
+            if dotted(c.func) != 'ast.FormattedValue': continue
+            nfv += 1
+            ok = False; x = c
+            while id(x) in par and not isinstance(par[id(x)], ast.stmt):
+                x = par[id(x)]
+                if isinstance(x, ast.Call) and dotted(x.func) == 'ast.JoinedStr': ok = True
+                if isinstance(x, ast.Call) and isinstance(x.func, ast.Attribute) and x.func.attr == 'append':
+                    lst = dotted(x.func.value)
+                    ok = ok or any(dotted(k.func) == 'ast.JoinedStr' and k.args and dotted(k.args[0]) == lst for k in calls_in(fn.node))
+            st = par.get(id(x))
+            if not ok and isinstance(st, ast.Assign) and isinstance(st.targets[0], ast.Subscript):
+                lst = dotted(st.targets[0].value)
+                ok = any(dotted(k.func) == 'ast.JoinedStr' and k.args and dotted(k.args[0]) == lst for k in calls_in(fn.node))
+            ctx.ob('C03-FSTR.replacement-field-stays-inside-an-fstring', fn, c, ok,
+                   '' if ok else '%s builds an ast.FormattedValue that is not placed into an ast.JoinedStr: an f-string consisting of this single field is handed on as a '
+                   'bare FormattedValue, which the consumers take for its plain value -- conversion and format spec are lost' % fn.qual, node=c,
+                   expected='ast.JoinedStr([ast.FormattedValue(...)])')
+    ctx.floor('C03-FSTR', nfv, 2, 'constructions of ast.FormattedValue in the decompiler')
+    fv = repo.fn_opt('pony.orm.decompiling', 'Decompiler.FORMAT_VALUE')
+    if fv is not None:
+        txt = norm(fv.node, limit=5000)
+        ok = 'flags & 4' in txt and 'flags & 3' in txt
+        ctx.ob('C03-FSTR.format-value-flags-decoded-completely', fv, fv.node, ok,
+               '' if ok else 'FORMAT_VALUE does not decode the flag byte as (conversion = flags & 3, spec present = flags & 4): some of the 8 combinations are mishandled', node=fv.node)
     # ---------------------------------------------------------------- PIN
     gid = repo.fn('pony.utils.utils', 'get_codeobject_id'); g = cg.cfg(gid)
     stores = [x for x in g.nodes if x.kind == 'stmt' and isinstance(x.ast, ast.Assign) and any(isinstance(t, ast.Subscript) and dotted(t.value) == 'codeobjects' for t in x.ast.targets)
@@ -101,6 +139,7 @@ def run(ctx):
 
 
 MUTANTS = [
+    dict(id='C03-f1', file='pony/orm/decompiling.py', fn='Decompiler.formatted_value', old="        return ast.JoinedStr([ast.FormattedValue(value=value, conversion=conversion, format_spec=format_spec)])", new="        return ast.FormattedValue(value=value, conversion=conversion, format_spec=format_spec)", expect='C03-FSTR'),
     dict(id='C03-m1', file='pony/orm/decompiling.py', fn='Decompiler.conditional_jump_none_impl', old='        decompiler.targets.setdefault(endpos, clause)', new='        decompiler.targets[endpos] = clause', expect='C03-TARGETS'),
     dict(id='C03-m2', file='pony/orm/decompiling.py', fn='Decompiler.decompile', old="            if method is None:\n                throw(DecompileError('Unsupported operation: %s' % opname))\n", new="            if method is None: continue\n", expect='C03-REJECT'),
     dict(id='C03-m3', file='pony/orm/decompiling.py', fn='decompile', old='    key = get_codeobject_id(codeobject)', new='    key = id(codeobject)', expect='C03-PIN'),
